@@ -260,15 +260,19 @@ def subDays (d k : Int) : Chk Int :=
 
 def subDate (a b : Int) : Int := a - b
 
-def addIntervalYmInternal (d interval : Int) : Chk Int :=
-  let (year, month, day) := extract d
+/-- The year/month carry of `add_interval_ym_internal`: `(new_year, new_month)` from `month + interval`. -/
+def monthCarry (year month interval : Int) : Int × Int :=
   let newMonth := month + interval
   if newMonth > MONTHS_PER_YEAR then
-    tryFromYmd (year + rdiv (newMonth - 1) MONTHS_PER_YEAR) (rrem (newMonth - 1) MONTHS_PER_YEAR + 1) day
+    (year + rdiv (newMonth - 1) MONTHS_PER_YEAR, rrem (newMonth - 1) MONTHS_PER_YEAR + 1)
   else if newMonth < 1 then
-    tryFromYmd (year + (rdiv newMonth MONTHS_PER_YEAR - 1)) (rrem newMonth MONTHS_PER_YEAR + MONTHS_PER_YEAR) day
-  else
-    tryFromYmd year newMonth day
+    (year + (rdiv newMonth MONTHS_PER_YEAR - 1), rrem newMonth MONTHS_PER_YEAR + MONTHS_PER_YEAR)
+  else (year, newMonth)
+
+def addIntervalYmInternal (d interval : Int) : Chk Int :=
+  let (year, month, day) := extract d
+  let (newYear, newMonth) := monthCarry year month interval
+  tryFromYmd newYear newMonth day
 
 /-- `day_of_week`: 1 = Sunday … 7 = Saturday. -/
 def dayOfWeek (d : Int) : Int :=
